@@ -79,7 +79,15 @@ func projString(defData string) (*SR, error) {
 			self.NoDefs = true
 		case "towgs84":
 			split := strings.Split(paramVal, ",")
-			self.DatumParams = make([]float64, len(split))
+			// Terms that are not given are zero (as in PROJ.4): the list has
+			// three terms, or seven if a rotation or the scale is given.
+			n := len(split)
+			if n < 3 {
+				n = 3
+			} else if n > 3 && n < 7 {
+				n = 7
+			}
+			self.DatumParams = make([]float64, n)
 			for i, s := range split {
 				self.DatumParams[i], err = strconv.ParseFloat(s, 64)
 				if err != nil {
